@@ -14,30 +14,45 @@ from . import terms as T
 VERIF = mir.VERIF
 
 # property -> list of rule modules (each has run(ctx)); shared modules implement dependencies between properties
+# property -> rule modules.  The first module holds the property's own rules; the others are the rule sets of the
+# mechanisms its statement rests on (DESIGN 4: e.g. membership is nullable(str_derivative(..)), so C01 also needs the
+# derivative, partition, loop-range and subsumption rules; compile marks final states by the nullable flag, so C02 needs C01's).
 PROPERTIES = {
-    'C01': ['c01'],
-    'C02': ['c02', 'c03', 'c11', 'c13'],
-    'C03': ['c03', 'c11'],
-    'C04': ['c04'],
-    'C05': ['c05', 'c19'],
+    'C01': ['c01', 'c03', 'c07', 'c11', 'c15', 'c16'],
+    'C02': ['c02', 'c01', 'c03', 'c11', 'c12', 'c13', 'c15', 'c16', 'c19'],
+    'C03': ['c03', 'c01', 'c11', 'c12', 'c15', 'c16'],
+    'C04': ['c04', 'c11', 'c12', 'c14'],
+    'C05': ['c05', 'c01', 'c03', 'c11', 'c12', 'c19'],
     'C06': ['c06'],
     'C07': ['c07'],
     'C08': ['c08'],
     'C09': ['c09'],
-    'C10': ['c10'],
+    'C10': ['c10', 'c01', 'c03', 'c11'],
     'C11': ['c11'],
-    'C12': ['c12'],
-    'C13': ['c13'],
-    'C14': ['c14'],
+    'C12': ['c12', 'c11'],
+    'C13': ['c13', 'c11'],
+    'C14': ['c14', 'c11', 'c12'],
     'C15': ['c15'],
-    'C16': ['c16'],
+    'C16': ['c16', 'c15'],
     'C17': ['c17'],
-    'C18': ['c18'],
-    'C19': ['c19'],
+    'C18': ['c18', 'c03', 'c05', 'c11'],
+    'C19': ['c19', 'c02', 'c03', 'c11'],
     'C20': ['c20'],
 }
 
 LEVEL_TEXT = 'static rule instances over type-checked MIR (abstract interpretation / dataflow / table comparison); necessary conditions only'
+
+
+def run_task(task):
+    pid, tier, repo, workdir, modname, sub = task
+    ctx = core.Ctx(repo, tier, workdir)
+    mod = importlib.import_module('smtlint.rules.' + modname)
+    label = modname if sub is None else '%s:%s' % (modname, sub)
+    args = () if sub is None else (sub,)
+    core.guarded(ctx, pid + '.' + modname, '%s/%s/module' % (pid, label), mod.run, *args)
+    if tier == 'thorough' and hasattr(mod, 'run_thorough') and sub in (None, getattr(mod, 'SUBTASKS', [None])[0]):
+        core.guarded(ctx, pid + '.' + modname, '%s/%s/module-thorough' % (pid, label), mod.run_thorough)
+    return ctx.instances, ctx.stats, ctx.assumptions, ctx.samples
 
 
 def run_property(pid, tier, repo, seed):
@@ -47,16 +62,35 @@ def run_property(pid, tier, repo, seed):
     exit_code = 0
     try:
         try:
-            for cfg in ('dev', 'rel'):
-                ctx.crate(cfg)
+            from concurrent.futures import ThreadPoolExecutor
+            with ThreadPoolExecutor(max_workers=2) as ex:
+                list(ex.map(ctx.crate, ('dev', 'rel')))
         except mir.ExtractionError as e:
             sys.stderr.write('smtlint: cannot extract facts from %s: %s\n' % (repo, e))
             return 2
+        tasks = []
         for modname in PROPERTIES[pid]:
             mod = importlib.import_module('smtlint.rules.' + modname)
-            core.guarded(ctx, pid + '.' + modname, '%s/%s/module' % (pid, modname), mod.run)
-            if tier == 'thorough' and hasattr(mod, 'run_thorough'):
-                core.guarded(ctx, pid + '.' + modname, '%s/%s/module-thorough' % (pid, modname), mod.run_thorough)
+            for sub in getattr(mod, 'SUBTASKS', [None]):
+                tasks.append((pid, tier, repo, workdir, modname, sub))
+        if len(tasks) == 1 or os.environ.get('SMTLINT_SERIAL'):
+            results = [run_task(t) for t in tasks]
+        else:
+            # rule modules are independent of each other: one forked worker per module (the extracted facts are
+            # inherited from this process); their instances are merged in table order
+            import multiprocessing
+            with multiprocessing.get_context('fork').Pool(min(len(tasks), os.cpu_count() or 4)) as pool:
+                results = pool.map(run_task, tasks, chunksize=1)
+        for insts, stats, assumptions, samples in results:
+            ctx.instances.extend(insts)
+            for k, v in stats.items():
+                if isinstance(v, set):
+                    ctx.stats[k] |= v
+                else:
+                    ctx.stats[k] += v
+            ctx.assumptions |= assumptions
+            for smp in samples:
+                ctx.sample(smp)
     finally:
         shutil.rmtree(workdir, ignore_errors=True)
 
